@@ -115,6 +115,7 @@ def run(ctx: core.Ctx):
         else:
             x = gen.series(rng, n, kind)
         series.append(x)
+    series += [[7] * n for n in (2, 3, 5, 12, 60, 200)] + [[-3.5] * 9]
     lines = [f"mk F {core.farr(x)}" for x in series]
     answers = ctx.driver.ask(lines)
     gu_in16 = {}
@@ -133,7 +134,17 @@ def run(ctx: core.Ctx):
             ctx.disagree("F", "mk", inp, dict(s=ms, tau=mtau, var18=mv18, z=mz, slope=mslope), dict(s=int(s), tau=float(tau), var=float(vs), z=z, slope=float(slope)))
         o = oracle(x)
         if vs <= 0:
-            ctx.count("zero variance (all equal): out of claim")
+            # a pixel that is constant over time: S = 0, hence Z = 0 (the variance is not needed), p = 1, slope 0, no trend
+            ctx.count("constant series")
+            for dt in ("int16", "float32"):
+                if dt == "int16" and any(float(v) != int(v) for v in x):
+                    continue
+                g = stats._mann_kendall_trend_gu(np.array(x, dtype=dt))
+                g2 = stats._mann_kendall_trend_gu_nd(np.array(x, dtype=dt), -9999.0)
+                for gg, nm in ((g, "_mann_kendall_trend_gu"), (g2, "_mann_kendall_trend_gu_nd")):
+                    if not (gg[0] == 0 and gg[1] == 1 and gg[2] == 0 and gg[3] == 0):
+                        ctx.fail(nm, dict(x=x, dtype=dt), dict(tau=float(gg[0]), p=float(gg[1]), slope=float(gg[2]), trend=int(gg[3])),
+                                 dict(tau=0, p=1, slope=0, trend=0), note="constant series: S = 0 gives Z = 0, p = 1, no trend (never NaN)")
             continue
         tau1, p1, slope1, trend1 = stats.mann_kendall_trend_1d(xa)
         p, h = stats.mk_p_value(z)
